@@ -51,6 +51,10 @@ def make_cases(ctx, n_pool, n_coll, n_stack, n_iter, cfgs, faults=True):
             sc = poolgen.gen_script(rng, t, faults=faults and i % 3 == 0)
             for c in cfgs:
                 cases.append(dict(exe=ex_pool[c], script=sc, replay_args=['pool'], tag=(kind, t['line'], c)))
+    for i in range(n_pool // 2):
+        t, sc = poolgen.gen_fragment_script(rng)
+        for c in cfgs:
+            cases.append(dict(exe=ex_pool[c], script=sc, replay_args=['pool'], tag=('pool', t['line'] + ' (fragmented arrays)', c)))
     for i in range(n_stack):
         sc = stackgen.gen_script(rng, faults=faults and i % 3 == 0)
         for c in cfgs:
